@@ -3,6 +3,12 @@
 import json
 PROPS = [json.loads(l) for l in open('/verif/properties.jsonl')]
 CLAIMED = {
+ "C13": dict(
+    category="proof",
+    text="Coq theorem C13_renumber proves, for any number of aligned axes, any ascending set of dropped aligned indices and any per-member axis order, that the loop of _update_aligned_axes (per-member copy of the index array) yields exactly the closed-form renumbering 'same physical axes lowered by the number of dropped member axes below them'; C13_drops_wellformed shows every item meets its hypotheses. The whole edit state machine (slice, select, copy, pop, del, update, refused ops) is an executable Gallina model whose every reached state is compared with the implementation's (keys, shapes, aligned axes, unchanged-after-refusal) and checked against the boolean invariant inv inside Coq; invariant preservation by induction over histories is NOT yet proved (partial: checked per reached state by vm_compute, not by theorem).",
+    design_ref="DESIGN.md §5.13",
+    note="Trusted: Coq kernel + VM; Model/M_Collection.v transcription; M_Slicing for member shapes; harness + direct oracle (physical-axis identity via coded data). NDCubeSequence members are not generated. Invariant-by-induction theorem missing (see text).",
+    technique="Coq proof over hand-written Gallina model + vm_compute correspondence check over edit histories"),
  "C11": dict(
     category="proof",
     text="Coq theorems (C11_tuple_slice, C11_tuple_int, C11_ellipsis_expanded, C11_common_axis, C11_explode_entries, C11_explode_count, C11_explode_common_axis, C11_cube_like_shape) prove for any number of cubes, any shapes (ragged along the common axis) and any item that sequence indexing is list indexing composed with per-cube slicing, that the new common axis is the rank of the old one among surviving axes (Ellipsis expanded first), and that exploding returns hyperplane j of cube k at position locate(lengths, m); the transcription is tied to /repo by a correspondence check over histories of <=3 ops and a numpy/list direct oracle.",
